@@ -32,6 +32,22 @@ def recber_phase(ctx, res, pid, n_quick=120, n_thorough=1500, ops=None):
     if ops is None:
         ops = core.harness_gen(ctx.harness, "recber", ctx.seed, n, ctx.tier)
     impl = core.harness_run(ctx.harness, "recber", ops)
+    # the whole charging model, with the BER size guard plugged in (Driver/Main.lean: berGuard), on the same operations
+    from .props import strip_annot
+    model = core.driver_run(["chf " + op.split(" ", 1)[1] for op in ops])
+    s0 = 0
+    for i, (op, im, mo) in enumerate(zip(ops, impl, model)):
+        if op.split(" ")[1:2] == ["reset"]:
+            s0 = i
+        a, b = im.split(" rb=")[0], strip_annot(mo)
+        if a != b:
+            res.disagreements += 1
+            res.violation("correspondence", "recber: charging model (with the BER size guard of ChargingDataUpdate) and implementation differ",
+                          ops[s0:i + 1] + ["# impl:  " + a[:1500], "# model: " + b[:1500]])
+            break
+        if " rec=" in a:
+            nrec = max((t.count("|") + 1 for t in a.split(" ") if t.startswith("rec=") and t != "rec=-"), default=0)
+            res.dist["recber:records-of-a-subscriber=%s" % (nrec if nrec < 3 else "3+")] += 1
     want = {}      # driver query -> (real hex, op index)
     start = 0
     starts = {}
